@@ -109,6 +109,15 @@ def run(ctx):
                 continue
             raw = c01.rawdata(l)
             plan = json.loads(json.dumps(r.get("plan"))) or {}
+            # response extensions registered by concurrently running resolvers: none may be lost
+            want_ext = sorted(i["ext"] for i in r["log"] if i.get("ext"))
+            got_ext = sorted(k for k in (r["payloads"][0].get("extKeys") or []) if k.startswith("x:"))
+            if want_ext:
+                dist["registers-response-extensions"] += 1
+            if want_ext != got_ext:
+                divs.append((cfg, r, None, ["response-extensions: registered %d, in the response %d (missing %s)" % (
+                    len(want_ext), len(got_ext), sorted(set(want_ext) - set(got_ext))[:3])]))
+                continue
             tags = set()
             if plan.get("extraDelay"):
                 tags.add("reversed-root-completion-order")
